@@ -33,6 +33,7 @@ def run(prog, rep, tier='quick'):
     rep.rule('error-sign', 'in arcovar / modcovar the returned error adds |b|^2 and b^H A a with opposite sign parity relative to the un-negated data matrix and the least-squares solution')
     rep.rule('exact-solve', 'lstsq is called without cond / rcond (no singular-value truncation)')
     rep.rule('marple-normalisation', 'size signature of the returned variances == 1/(N-p)')
+    rep.rule('guard-consistency', 'all raise-guards of one scalar inside a Marple recursion accept the same interval (open/closed ends included)')
     seen = set()
     cm = prog.func('linalg', 'corrmtx')
     n_b = n_m = 0
@@ -231,5 +232,28 @@ def run(prog, rep, tier='quick'):
                 else:
                     rep.violation('marple-normalisation', f.qname, 'variance[%d] [%s]' % (i, ctx), 'the returned variance is normalised by '
                                   '%s, not by the number of equations N-p' % (('1/(%s)' % sp.simplify(1 / sz)) if sz not in (None, 0) else 'an unknown factor'), where)
+    # validity tests of the recursion scalars: every test of one scalar inside one recursion accepts the same interval
+    from ..guards import accepted_intervals, show as show_iv
+    n_g = 0
+    for mod, fname in (('covar', 'arcovar_marple'), ('modcovar', 'modcovar_marple')):
+        f = prog.func(mod, fname)
+        per = {}
+        for g_, iv in accepted_intervals(f.node):
+            for name, rng in iv.items():
+                per.setdefault(name, []).append((g_, rng))
+        for name, lst in sorted(per.items()):
+            n_g += 1
+            kinds = sorted(set(r_ for _, r_ in lst), key=str)
+            if len(kinds) > 1:
+                minority = min(kinds, key=lambda k_: sum(1 for _, r_ in lst if r_ == k_))
+                g_ = [g0 for g0, r_ in lst if r_ == minority][0]
+                rep.violation('guard-consistency', f.qname, 'validity tests of %s' % name, 'the tests of %s in this recursion accept different '
+                              'intervals: %s (e.g. line %d accepts %s): a value one test lets through as valid makes another raise, so inputs '
+                              'that reach the boundary are rejected' % (name, ', '.join(show_iv(k_) for k_ in kinds), g_.lineno, show_iv(minority)),
+                              loc(f.mod, g_))
+            else:
+                rep.proved('guard-consistency', f.qname, 'validity tests of %s' % name, '%d test(s), all accept %s' % (len(lst), show_iv(kinds[0])),
+                           loc(f.mod, f.node))
+    rep.floor('guarded recursion scalars', n_g, 1)
     rep.floor('binding contexts', n_b, 8)
     rep.floor('marple contexts', n_m, 4)
